@@ -96,6 +96,16 @@ CLAIMED = {
    note="t >= 0 and Newton convergence are outside (concrete replay only); exp axiomatised; floats as reals",
    technique="symbolic execution of the real Python method on z3 Real proxies with stubbed root finder + SMT validity queries; uninterpreted-function contract check of find_root",
    ref='4/C15'),
+
+ 'C16': dict(
+   text=("The real D2O_sld / D2O_match / _D2O_slds / Formula.replace run on a private table whose H, H[1], D, O and solute atoms "
+         "carry symbolic masses and scattering lengths; real and imaginary SLD at volume fraction 1 are proven equal to the "
+         "documented substitution (fraction d of labile H -> D, rest -> H, cell volume fixed), at 0 to the H2O/D2O mixture at "
+         "0.9982 natural density, linear in between; at the reported match point the SLD is proven independent of the volume "
+         "fraction; fasta.Molecule agrees with nsf on the public table."),
+   note="floats as exact reals; incoherent SLD excluded (as the property does); np.maximum kept as an if-then-else term (incoherent part unused)",
+   technique="symbolic execution of the real Python functions on z3 Real proxies + SMT (QF_NRA) validity queries with fraction-free normalisation",
+   ref='4/C16'),
 }
 
 NOT_APPLICABLE = [
